@@ -10,4 +10,6 @@ let table : (string * (BinNums.coq_N list -> BinNums.coq_N list)) list = [
   ("mon_c11", MonGate.mon_c11);
   ("mon_c17", MonGate.mon_c17);
   ("mon_c15", MonTimers.mon_c15);
+  ("mon_c08", MonIds.mon_c08);
+  ("mon_c12", MonIds.mon_c12);
 ]
